@@ -1,11 +1,15 @@
 import FormulaicVerif.Engines.Json
 import FormulaicVerif.Model.SpecMeta
-/-! Engine `c10`: runs the executable model of `ModelSpec`'s derived metadata (`Model/SpecMeta.lean`).
+import FormulaicVerif.Model.SpecsMeta
+/-! Engine `c10`: runs the executable model of `ModelSpec`'s derived metadata (`Model/SpecMeta.lean`)
+and of `ModelSpecs.subset` (`Model/SpecsMeta.lean`).
 
-ops: `meta` (everything derived from a forwarded `structure`, plus the outcome of every probe),
+ops: `meta` (everything derived from a forwarded `ModelSpec` — structure possibly `None` —, plus the
+outcome of every probe), `specs` (`ModelSpecs.subset` on a forwarded tree of specs),
 `split` (`Term.FACTOR_MATCHER.finditer` on a string). -/
 namespace FormulaicVerif.Engines.C10
 open Lean FormulaicVerif.Engines FormulaicVerif.Model FormulaicVerif.Model.SpecMeta
+open FormulaicVerif.Model.SpecsMeta
 
 def sOf (j : Json) : Str := (asStr j).toList
 def sJ (s : Str) : Json := Json.str (String.ofList s)
@@ -13,11 +17,45 @@ def termOf (j : Json) : SpecMeta.Term := (asArr j).map sOf
 def termJ (t : SpecMeta.Term) : Json := jlist (t.map sJ)
 def natsJ (xs : List Nat) : Json := jlist (xs.map (fun n => Json.num (n : Nat)))
 def sliceJ (s : Nat × Nat) : Json := natsJ [s.1, s.2]
+def intJ (i : Int) : Json := Json.num (JsonNumber.fromInt i)
+def optIntJ : Option Int → Json
+  | some i => intJ i
+  | none => Json.null
+def pySliceJ (s : PySlice) : Json := jlist [optIntJ s.start, optIntJ s.stop, optIntJ s.step]
+def optIntOf : Json → Option Int
+  | .null => none
+  | j => some (asInt j)
+def optStrJ : Option Str → Json
+  | some s => sJ s
+  | none => Json.null
+
+def varOf (j : Json) : Var :=
+  { name := sOf (jval j "n"), value := jbool j "v", callable := jbool j "c",
+    source := match jval j "s" with
+      | .null => none
+      | s => some (sOf s) }
+def varJ (v : Var) : Json := jlist [sJ v.name, Json.bool v.value, Json.bool v.callable, optStrJ v.source]
+
+def sfactorOf (j : Json) : SFactor :=
+  { expr := sOf (jval j "e"),
+    vars := match jval j "vars" with
+      | .null => none
+      | a => some ((asArr a).map varOf) }
 
 def rowOf (j : Json) : Row :=
   { term := termOf (jval j "term"),
-    svars := (jarr j "svars").map (fun st => (asArr st).map (fun f => (asArr f).map sOf)),
+    sterms := (jarr j "sterms").map (fun st => (asArr st).map sfactorOf),
     columns := (jarr j "columns").map sOf }
+
+def encOf (j : Json) : EncEntry :=
+  { expr := sOf (jval j "e"), categorical := jbool j "cat", hasContrasts := jbool j "con" }
+
+def specOf (j : Json) : Spec :=
+  { formula := (jarr j "formula").map termOf,
+    structure? := match jval j "structure" with
+      | .null => none
+      | a => some ((asArr a).map rowOf),
+    enc := (jarr j "enc").map encOf }
 
 def resJ {α} (f : α → Json) : Except PyErr α → Json
   | .ok v => Json.mkObj [("ok", f v)]
@@ -27,72 +65,162 @@ def optJ {α} (f : α → Json) : Option α → Json
   | some v => Json.mkObj [("ok", f v)]
   | none => Json.mkObj [("err", Json.str "KeyError")]
 
-def matOf : String → Materializer
-  | "narwhals" => .narwhals
-  | _ => .pandas
-def outOf : String → Output
-  | "numpy" => .numpy | "sparse" => .sparse | "narwhals" => .narwhals | _ => .pandas
+def optNullJ {α} (f : α → Json) : Option α → Json
+  | some v => f v
+  | none => Json.null
+
+def matOf (s : String) : Materializer := (Materializer.ofName s).getD .pandas
+def outOf (s : String) : Output := (Output.ofName s).getD .pandas
+def orderingOf : String → SpecMeta.Ordering
+  | "none" => .none | "sort" => .sort | _ => .degree
 
 /-- sort (key, json) pairs by key for canonical output of dicts whose order is not observable -/
 def sortByKey (xs : List (Str × Json)) : List (Str × Json) :=
   (sortStrs (xs.map (·.1))).filterMap (fun k => (xs.find? (fun e => e.1 == k)).map (fun e => (k, e.2)))
 
+/-- canonical output of a set of variables: sorted by name -/
+def varsJ (vs : List Var) : Json :=
+  jlist ((sortByKey (vs.map (fun v => (v.name, varJ v)))).map (·.2))
+
 def rowJ (r : Row) : Json := Json.mkObj [("term", termJ r.term), ("columns", jlist (r.columns.map sJ))]
 
-def probe (formula : List SpecMeta.Term) (st : Structure) (j : Json) : Json :=
+def reqTermOf (j : Json) : ReqTerm :=
+  { term := termOf (jval j "t"), literal := (jarr j "lit").map asBool }
+
+def parsedOf (j : Json) : ParsedSpec :=
+  match jstr j "p" with
+  | "structured" => .structured
+  | "formula" => .formula ((jarr j "terms").map termOf)
+  | _ => .terms ((jarr j "terms").map reqTermOf)
+
+def identOf (j : Json) : AnyIdent :=
+  match jstr j "kind" with
+  | "int" => .int (jint j "i")
+  | "slice" => .slice ⟨optIntOf (jval j "a"), optIntOf (jval j "b"), optIntOf (jval j "c")⟩
+  | "unhashable" => .unhashable
+  | _ => .other
+
+def subJ (sp : Spec) : Json :=
+  Json.mkObj [
+    ("rows", match sp.structure? with
+      | some st => jlist (st.map rowJ)
+      | none => Json.null),
+    ("names", match sp.structure? with
+      | some st => jlist ((columnNames st).map sJ)
+      | none => Json.null),
+    ("formula", jlist (sp.formula.map termJ))]
+
+/-- bind the structure of the spec (RuntimeError when it is not populated) -/
+def withSt {α} (sp : Spec) (f : Structure → Except PyErr α) : Except PyErr α :=
+  match sp.st with
+  | .ok st => f st
+  | .error e => .error e
+
+def probe (sp : Spec) (j : Json) : Json :=
+  let ti := fun (k : Key) => withSt sp (fun st => (termIndices st).get k)
+  let ts := fun (k : Key) => withSt sp (fun st => (termSlices st).get k)
+  let tin := fun (k : Key) => sp.attr (fun st => (termIndices st).contains k)
+  let tget := fun (k : Key) => withSt sp (fun st => (termIndices st).getDefault k)
   match jstr j "k" with
   | "term" =>
-    let t := termOf (jval j "t")
+    let t := mkTerm (termOf (jval j "t"))
     Json.mkObj [
-      ("ti", resJ natsJ ((termIndices st).get (.term t))),
-      ("ts", resJ sliceJ ((termSlices st).get (.term t))),
-      ("in", Json.bool ((termIndices st).contains (.term t))),
-      ("gs", resJ sliceJ (getSlice st (.term t)))]
+      ("ti", resJ natsJ (ti (.term t))),
+      ("ts", resJ sliceJ (ts (.term t))),
+      ("in", resJ Json.bool (tin (.term t))),
+      ("get", resJ (optNullJ natsJ) (tget (.term t))),
+      ("gs", resJ pySliceJ (sp.getSlice (.term t)))]
   | "str" =>
     let s := sOf (jval j "s")
     Json.mkObj [
-      ("ti", resJ natsJ ((termIndices st).get (.str s))),
-      ("ts", resJ sliceJ ((termSlices st).get (.str s))),
-      ("in", Json.bool ((termIndices st).contains (.str s))),
-      ("gs", resJ sliceJ (getSlice st (.str s))),
-      ("ci", optJ (fun (n : Nat) => Json.num (n : Nat)) ((columnIndices st).lookup s)),
-      ("gci", resJ natsJ (getColumnIndices st [s]))]
+      ("ti", resJ natsJ (ti (.str s))),
+      ("ts", resJ sliceJ (ts (.str s))),
+      ("in", resJ Json.bool (tin (.str s))),
+      ("get", resJ (optNullJ natsJ) (tget (.str s))),
+      ("gs", resJ pySliceJ (sp.getSlice (.str s))),
+      ("ci", match sp.st with
+        | .ok st => optJ (fun (n : Nat) => Json.num (n : Nat)) ((columnIndices st).lookup s)
+        | .error e => Json.mkObj [("err", Json.str e.name)]),
+      ("gci", resJ natsJ (sp.getColumnIndices [s]))]
   | "var" =>
     let v := sOf (jval j "s")
     Json.mkObj [
-      ("vi", match variableIndices st with
+      ("vi", match withSt sp variableIndices with
         | .ok d => optJ natsJ (d.lookup v)
         | .error e => Json.mkObj [("err", Json.str e.name)]),
-      ("gvi", resJ natsJ (getVariableIndices st [v]))]
+      ("gvi", resJ natsJ (withSt sp (fun st => getVariableIndices st [v])))]
+  | "cols" =>
+    resJ natsJ (sp.getColumnIndices ((jarr j "names").map sOf))
+  | "ident" =>
+    Json.mkObj [("gs", resJ pySliceJ (sp.getSlice (identOf j)))]
   | "tidx" =>
-    resJ natsJ (getTermIndices formula st ((jarr j "terms").map termOf))
+    resJ natsJ (sp.getTermIndices (orderingOf (jstr j "ordering")) (parsedOf (jval j "spec")))
   | "subset" =>
-    resJ (fun (sub : Structure) => Json.mkObj [
-      ("rows", jlist (sub.map rowJ)),
-      ("names", jlist ((columnNames sub).map sJ))]) (subset formula st ((jarr j "terms").map termOf))
+    resJ subJ (sp.subset (orderingOf (jstr j "ordering")) (parsedOf (jval j "spec")))
   | k => jerr ("unknown probe " ++ k)
 
 def handleMeta (j : Json) : Json :=
-  let st : Structure := (jarr j "structure").map rowOf
-  let formula := (jarr j "formula").map termOf
+  let sp := specOf j
   let mode := combineMode (matOf (jstr j "materializer")) (outOf (jstr j "output"))
+  let strsJ := fun (xs : List Str) => jlist ((sortStrs xs).map sJ)
+  let termsJ := fun (ts : List SpecMeta.Term) => jlist ((sortStrs (ts.map termHash)).map sJ)
   Json.mkObj [
-    ("column_names", jlist ((columnNames st).map sJ)),
-    ("labels", jlist ((matrixLabels mode st).map sJ)),
-    ("column_indices", jlist ((columnIndices st).map (fun e => jlist [sJ e.1, Json.num (e.2 : Nat)]))),
-    ("term_indices", jlist ((termIndices st).map (fun e => jlist [termJ e.1, natsJ e.2]))),
-    ("term_slices", jlist ((termSlices st).map (fun e => jlist [termJ e.1, sliceJ e.2]))),
-    ("term_variables", jlist ((termVariables st).map (fun e => jlist [termJ e.1, jlist ((sortStrs e.2).map sJ)]))),
-    ("variable_terms", jlist ((sortByKey ((variableTerms st).map (fun e =>
-        (e.1, jlist ((sortStrs (e.2.map termHash)).map sJ))))).map (fun e => jlist [sJ e.1, e.2]))),
-    ("variable_indices", match variableIndices st with
-      | .ok d => jlist ((sortByKey (d.map (fun e => (e.1, natsJ e.2)))).map (fun e => jlist [sJ e.1, e.2]))
-      | .error e => jerr e.name),
-    ("probes", jlist ((jarr j "probes").map (probe formula st)))]
+    ("column_names", resJ (fun xs => jlist (xs.map sJ)) (sp.attr columnNames)),
+    ("labels", resJ (fun xs => jlist (xs.map sJ)) (sp.attr (matrixLabels mode))),
+    ("column_indices", resJ (fun d => jlist (d.map (fun e => jlist [sJ e.1, Json.num (e.2 : Nat)])))
+      (sp.attr columnIndices)),
+    ("term_indices", resJ (fun d => jlist (d.map (fun e => jlist [termJ e.1, natsJ e.2]))) (sp.attr termIndices)),
+    ("term_slices", resJ (fun d => jlist (d.map (fun e => jlist [termJ e.1, sliceJ e.2]))) (sp.attr termSlices)),
+    ("term_variables", resJ (fun d => jlist (d.map (fun e => jlist [termJ e.1, varsJ e.2])))
+      (sp.attr termVariablesFull)),
+    ("variable_terms", resJ (fun d => jlist ((sortByKey (d.map (fun e => (e.1, termsJ e.2)))).map
+      (fun e => jlist [sJ e.1, e.2]))) (sp.attr variableTerms)),
+    ("variable_indices", resJ (fun d => jlist ((sortByKey (d.map (fun e => (e.1, natsJ e.2)))).map
+      (fun e => jlist [sJ e.1, e.2]))) (withSt sp variableIndices)),
+    ("term_factors", jlist ((termFactors sp.formula).map (fun e => jlist [termJ e.1, strsJ e.2]))),
+    ("factors", strsJ (factors sp.formula)),
+    ("factor_terms", jlist ((sortByKey ((factorTerms sp.formula).map (fun e => (e.1, termsJ e.2)))).map
+      (fun e => jlist [sJ e.1, e.2]))),
+    ("factor_variables", resJ (fun d => jlist ((sortByKey (d.map (fun e => (e.1, varsJ e.2)))).map
+      (fun e => jlist [sJ e.1, e.2]))) (withSt sp (factorVariables sp.formula))),
+    ("factor_contrasts", strsJ (factorContrastKeys sp.formula sp.enc)),
+    ("variables", resJ varsJ (sp.attr variables)),
+    ("variables_by_source", resJ (fun d => jlist ((sortByKey (d.map (fun e =>
+        (match e.1 with | some s => 's' :: s | none => ['n'], jlist [optStrJ e.1, strsJ e.2])))).map (·.2)))
+      (sp.attr variablesBySource)),
+    ("required_variables", resJ strsJ (sp.attr requiredVariables)),
+    ("probes", jlist ((jarr j "probes").map (probe sp)))]
+
+/-! ### `ModelSpecs` -/
+
+partial def treeOf {α} [Inhabited α] (leaf : Json → α) (j : Json) : St.Val α :=
+  match j.getObjVal? "leaf" with
+  | .ok l => .leaf (leaf l)
+  | .error _ =>
+    match j.getObjVal? "tup" with
+    | .ok t => .tup ((asArr t).map (treeOf leaf))
+    | .error _ => .node ((jarr j "node").map (fun kv =>
+        match asArr kv with
+        | [k, v] => (asStr k, treeOf leaf v)
+        | _ => ("", .node [])))
+
+partial def treeJ {α} (leaf : α → Json) : St.Val α → Json
+  | .leaf a => Json.mkObj [("leaf", leaf a)]
+  | .tup vs => Json.mkObj [("tup", jlist (vs.map (treeJ leaf)))]
+  | .node kvs => Json.mkObj [("node", jlist (kvs.map (fun kv => jlist [Json.str kv.1, treeJ leaf kv.2])))]
+
+def handleSpecs (j : Json) : Json :=
+  let specs := treeOf specOf (jval j "specs")
+  Json.mkObj [
+    ("required_variables", jlist ((sortStrs (specsRequiredVariables
+      ((St.flatten specs).filterMap (·.structure?)))).map sJ)),
+    ("probes", jlist ((jarr j "probes").map (fun p =>
+      resJ (treeJ subJ) (specsSubset specs (treeOf (fun l => (asArr l).map termOf) (jval p "parsed"))))))]
 
 def handle (j : Json) : Json :=
   match jstr j "op" with
   | "meta" => handleMeta j
+  | "specs" => handleSpecs j
   | "split" => Json.mkObj [("factors", jlist ((matchFactors (sOf (jval j "s"))).map sJ))]
   | o => jerr ("unknown op " ++ o)
 
